@@ -1,7 +1,99 @@
 import AmqModel.Model.Slots
+import AmqModel.Lemmas.Slots
+/-!
+# C10 — channel ids: unique among open channels, within 1..=channel_max, reusable
+
+Property theorems only (helper lemmas live in `AmqModel/Lemmas/Slots.lean`).
+-/
 namespace AmqModel.Props.C10
 open AmqModel.Slots
 
-theorem placeholder : (Slots.new 1).next = 1 := rfl
+/-- Reachable-state invariant of the allocator. `freed` may contain ids that are open again
+    (stale entries; the repaired code skips them). The last clause says no id is ever lost:
+    every id the counter has passed is open or in the freed set. -/
+def Inv (s : Slots) : Prop :=
+  s.open_.Nodup ∧ (∀ id ∈ s.open_, 1 ≤ id ∧ id ≤ s.max) ∧
+  s.freed.Nodup ∧ (∀ id ∈ s.freed, 1 ≤ id ∧ id ≤ s.max) ∧
+  1 ≤ s.next ∧ s.next ≤ s.max + 1 ∧
+  (∀ id, 1 ≤ id → id < s.next → id ∈ s.open_ ∨ id ∈ s.freed)
+
+-- `Inv` and the lemma-side `Slots.WF` have the same body, so terms of one type-check as the other.
+
+theorem inv_new (max : Nat) : Inv (Slots.new max) := Slots.wf_new max
+
+theorem inv_step (s : Slots) (op : Op) (h : Inv s) : Inv (step s op) ∧ (step s op).max = s.max :=
+  Slots.wf_step h op
+
+/-- Every state reachable by any finite sequence of opens / closes / drains (of any length, in
+    particular longer than `channel_max`) satisfies the invariant. -/
+theorem inv_reachable (max : Nat) (ops : List Op) : Inv (ops.foldl step (Slots.new max)) :=
+  Slots.wf_reachable max ops
+
+/-- `open_channel(Some(id))`: exactly that id iff `1 ≤ id ≤ max` and not open; otherwise
+    `UnavailableChannelId id` (in particular for id 0) and nothing changes. -/
+theorem insertSome_spec (s : Slots) (id : Nat) :
+    (1 ≤ id ∧ id ≤ s.max ∧ id ∉ s.open_ →
+        (insertSome s id).2 = .ok id ∧ (insertSome s id).1.open_ = id :: s.open_) ∧
+    (¬(1 ≤ id ∧ id ≤ s.max ∧ id ∉ s.open_) → insertSome s id = (s, .unavailable id)) :=
+  Slots.insertSome_spec s id
+
+/-- `open_channel(None)` from a reachable state: some id in `1..=max` that was not open, and the
+    open set grows by exactly that id; or `ExhaustedChannelIds`, and then every id in `1..=max`
+    is open and the open set is unchanged. It never panics and never reports anything else. -/
+theorem insertNone_spec (s : Slots) (h : Inv s) :
+    (∃ id, (insertNone s).2 = .ok id ∧ 1 ≤ id ∧ id ≤ s.max ∧ id ∉ s.open_ ∧
+        (insertNone s).1.open_ = id :: s.open_) ∨
+    ((insertNone s).2 = .exhausted ∧ (∀ id, 1 ≤ id → id ≤ s.max → id ∈ s.open_) ∧
+        (insertNone s).1.open_ = s.open_) := by
+  rcases Slots.insertNone_cases h with ⟨id, e, h1, h2, h3, h4, _⟩ | ⟨e, h1, h2, _⟩
+  · exact Or.inl ⟨id, e, h1, h2, h3, h4⟩
+  · exact Or.inr ⟨e, h1, h2⟩
+
+/-- … hence it succeeds whenever some id is available. -/
+theorem insertNone_succeeds (s : Slots) (h : Inv s) (id : Nat) (h1 : 1 ≤ id) (h2 : id ≤ s.max)
+    (h3 : id ∉ s.open_) : ∃ id', (insertNone s).2 = .ok id' := by
+  rcases insertNone_spec s h with ⟨id', e, _⟩ | ⟨_, hall, _⟩
+  · exact ⟨id', e⟩
+  · exact absurd (hall id h1 h2) h3
+
+/-- The counter loop needs no more than `max + 1 - next` iterations: more fuel changes nothing
+    (the call cannot hang; there is no wrap-around because `next ≤ max + 1` is invariant). -/
+theorem counterLoop_fuel (s : Slots) (n : Nat) (h : s.max + 1 - s.next ≤ n) :
+    counterLoop n s = counterLoop (s.max + 1 - s.next) s :=
+  Slots.counterLoop_fuel n s h
+
+/-- Closing: the id leaves the open set (and only it), so it is available again. -/
+theorem remove_spec (s : Slots) (h : Inv s) (id : Nat) :
+    (remove s id).2 = decide (id ∈ s.open_) ∧
+    ∀ x, x ∈ (remove s id).1.open_ ↔ (x ∈ s.open_ ∧ x ≠ id) :=
+  Slots.remove_spec h.1 id
+
+/-- After a close, the id can be opened again explicitly. -/
+theorem reopen_after_remove (s : Slots) (h : Inv s) (id : Nat) (hid : id ∈ s.open_) :
+    (insertSome (remove s id).1 id).2 = .ok id := by
+  obtain ⟨h1, h2⟩ := h.2.1 id hid
+  have hm : (remove s id).1.max = s.max := (Slots.wf_remove h id).2
+  have hn : id ∉ (remove s id).1.open_ := fun hx => ((remove_spec s h id).2 id).mp hx |>.2 rfl
+  exact ((insertSome_spec (remove s id).1 id).1 ⟨h1, hm ▸ h2, hn⟩).1
+
+/-- No reachable state hands out id 0, by either path, and no operation panics. -/
+theorem never_zero_never_panic (max : Nat) (ops : List Op) (id : Nat) :
+    let s := ops.foldl step (Slots.new max)
+    (insertSome s id).2 ≠ .ok 0 ∧ (insertNone s).2 ≠ .ok 0 ∧
+    (insertSome s id).2 ≠ .panic ∧ (insertNone s).2 ≠ .panic := by
+  intro s
+  exact ⟨Slots.insertSome_ne_ok_zero s id, Slots.insertNone_ne_ok_zero (inv_reachable max ops),
+    Slots.insertSome_ne_panic s id, Slots.insertNone_not_panic s⟩
+
+/-! Non-vacuity: a reachable state with a stale freed entry, and the regression witnesses. -/
+
+example : (([Op.none, .none, .remove 1, .some 1].foldl step (Slots.new 2)).freed = [1]) ∧
+    (([Op.none, .none, .remove 1, .some 1].foldl step (Slots.new 2)).open_ = [1, 2]) := by decide
+/-- D2: the code before the repair panics on this sequence; the repaired code reports exhaustion. -/
+example : (insertNoneG true ([Op.none, .none, .remove 1, .some 1].foldl (stepG true) (Slots.new 2))).2 = .panic := by decide
+example : (insertNone ([Op.none, .none, .remove 1, .some 1].foldl step (Slots.new 2))).2 = .exhausted := by decide
+/-- D1: the code before the repair hands out id 0. -/
+example : (insertSomeG true (Slots.new 4) 0).2 = .ok 0 := by decide
+example : (insertSome (Slots.new 4) 0).2 = .unavailable 0 := by decide
 
 end AmqModel.Props.C10
